@@ -5,7 +5,7 @@ RULE = (
     "Hypothesis-generated, state-aware histories (<= 30 ops) over 5 versions x {sync, async}: requests for values "
     "that are reported / desired / absent, config/time/id requests, gateway-ready, traffic from unknown nodes and "
     "children, reboot replies, metric toggles and a generated clock (mysensors.handler.time replaced by a stub "
-    "whose localtime() returns a drawn struct_time; gmtime() deliberately differs), controller values restricted "
+    "whose localtime() returns a drawn struct_time; gmtime() deliberately differs), controller calls with the value type as int / IntEnum / numeric str and values restricted "
     "to what the wire can carry. Per step the ordered list of strings handed to transport.send must equal the "
     "reference model's prescription (ack of a reply not compared); independently every emitted string must decode, "
     "be byte-identical to its canonical re-encoding, and be valid for the configured version under the reference "
